@@ -362,7 +362,7 @@ def sub_point(c, kind, orig, r, prev=None):
                 return enc_pt(c, x, y)
     if kind == "G":
         return enc_pt(c, 0, c["yG"])
-    if kind == "neg":
+    if kind == "negated-point":
         return enc_pt(c, x0, (p - y0) % p)
     if kind == "reflect":
         return prev
@@ -393,6 +393,7 @@ class Hist:
         self.sent, self.delivered = {}, {}
         self.key = {"A": None, "B": None}
         self.altered = False
+        self.shared_steps = []
         self.bad_point = None       # name of a delivered message whose point encoding is not a point of the curve
         self.prev_point = None
         self.r = random.Random("c04sub/%r" % (cfg.get("tamper"),))
@@ -562,6 +563,16 @@ def run_steps(env, cfg, donor=None):
     kca, kcb = cfg["kca"], cfg["kcb"]
     pr = cfg["proto"]
     key = lambda: lib.alloc(32)
+    shared = cfg.get("shared")      # None, "all" or a list of step labels: these steps get ONE block as in and out
+
+    def io(label, data, out_len):
+        """input and output buffers of a step that consumes `data` and produces out_len octets"""
+        if shared and out_len and (shared == "all" or label in shared):
+            blk = lib.alloc(max(len(data), out_len))
+            lib.wr(blk, data)
+            h.shared_steps.append(label)
+            return blk, blk
+        return lib.mk(data), lib.alloc(out_len)
 
     def getkey(side, fn, st):
         k = key()
@@ -574,15 +585,13 @@ def run_steps(env, cfg, donor=None):
         if h.step("B.Start", lib.bakeBMQVStart(sb, B.params, B.settings, B.privkey, B.cert)): return h
         m1 = lib.alloc(2 * no)
         if h.step("B.Step2", lib.bakeBMQVStep2(m1, sb)): return h
-        d1 = lib.mk(h.deliver("M1", lib.rd(m1, 2 * no)))
         n2 = 2 * no + (8 if kca else 0)
-        m2 = lib.alloc(n2)
+        d1, m2 = io("A.Step3", h.deliver("M1", lib.rd(m1, 2 * no)), n2)
         if h.step("A.Step3", lib.bakeBMQVStep3(m2, d1, A.peer_cert, sa)): return h
-        d2 = lib.mk(h.deliver("M2", lib.rd(m2, n2)))
         if not kcb:
             getkey("A", lib.bakeBMQVStepG, sa)
         n3 = 8 if kcb else 0
-        m3 = lib.alloc(n3)
+        d2, m3 = io("B.Step4", h.deliver("M2", lib.rd(m2, n2)), n3)
         if h.step("B.Step4", lib.bakeBMQVStep4(m3, d2, B.peer_cert, sb)): return h
         getkey("B", lib.bakeBMQVStepG, sb)
         if kcb:
@@ -595,13 +604,11 @@ def run_steps(env, cfg, donor=None):
         if h.step("B.Start", lib.bakeBSTSStart(sb, B.params, B.settings, B.privkey, B.cert)): return h
         m1 = lib.alloc(2 * no)
         if h.step("B.Step2", lib.bakeBSTSStep2(m1, sb)): return h
-        d1 = lib.mk(h.deliver("M1", lib.rd(m1, 2 * no)))
         n2 = 3 * no + A.cert_len + 8
-        m2 = lib.alloc(n2)
+        d1, m2 = io("A.Step3", h.deliver("M1", lib.rd(m1, 2 * no)), n2)
         if h.step("A.Step3", lib.bakeBSTSStep3(m2, d1, sa)): return h
-        d2 = lib.mk(h.deliver("M2", lib.rd(m2, n2)))
         n3 = no + B.cert_len + 8
-        m3 = lib.alloc(n3)
+        d2, m3 = io("B.Step4", h.deliver("M2", lib.rd(m2, n2)), n3)
         if h.step("B.Step4", lib.bakeBSTSStep4(m3, d2, n2, B.cv_peer, sb)): return h
         getkey("B", lib.bakeBSTSStepG, sb)
         d3 = lib.mk(h.deliver("M3", lib.rd(m3, n3)))
@@ -613,19 +620,16 @@ def run_steps(env, cfg, donor=None):
         if h.step("B.Start", lib.bakeBPACEStart(sb, B.params, B.settings, B.pwd, B.pwd_len)): return h
         m1 = lib.alloc(no // 2)
         if h.step("B.Step2", lib.bakeBPACEStep2(m1, sb)): return h
-        d1 = lib.mk(h.deliver("M1", lib.rd(m1, no // 2)))
         n2 = 5 * no // 2
-        m2 = lib.alloc(n2)
+        d1, m2 = io("A.Step3", h.deliver("M1", lib.rd(m1, no // 2)), n2)
         if h.step("A.Step3", lib.bakeBPACEStep3(m2, d1, sa)): return h
-        d2 = lib.mk(h.deliver("M2", lib.rd(m2, n2)))
         n3 = 2 * no + (8 if kcb else 0)
-        m3 = lib.alloc(n3)
+        d2, m3 = io("B.Step4", h.deliver("M2", lib.rd(m2, n2)), n3)
         if h.step("B.Step4", lib.bakeBPACEStep4(m3, d2, sb)): return h
         if not kca:
             getkey("B", lib.bakeBPACEStepG, sb)
-        d3 = lib.mk(h.deliver("M3", lib.rd(m3, n3)))
         n4 = 8 if kca else 0
-        m4 = lib.alloc(n4)
+        d3, m4 = io("A.Step5", h.deliver("M3", lib.rd(m3, n3)), n4)
         if h.step("A.Step5", lib.bakeBPACEStep5(m4, d3, sa)): return h
         getkey("A", lib.bakeBPACEStepG, sa)
         if kca:
@@ -639,15 +643,13 @@ def run_steps(env, cfg, donor=None):
         n1 = 2 * no + no // 2 + 16
         m1 = lib.alloc(n1)
         if h.step("B.Step2", lib.btokBAuthCTStep2(m1, B.peer_cert, sb)): return h
-        d1 = lib.mk(h.deliver("M1", lib.rd(m1, n1)))
         n2 = 8 + (16 if kcb else 0)
-        m2 = lib.alloc(n2)
+        d1, m2 = io("A.Step3", h.deliver("M1", lib.rd(m1, n1)), n2)
         if h.step("A.Step3", lib.btokBAuthTStep3(m2, d1, sa)): return h
         if not kcb:
             getkey("A", lib.btokBAuthTStepG, sa)
-        d2 = lib.mk(h.deliver("M2", lib.rd(m2, n2)))
         n3 = (8 + no + B.cert_len) if kcb else 0
-        m3 = lib.alloc(n3)
+        d2, m3 = io("B.Step4", h.deliver("M2", lib.rd(m2, n2)), n3)
         if h.step("B.Step4", lib.btokBAuthCTStep4(m3, d2, sb)): return h
         getkey("B", lib.btokBAuthCTStepG, sb)
         if kcb:
@@ -751,13 +753,15 @@ def judge(ctx, cfg, h, how="step"):
         ctx.violation(key, what, det, replay={"unit": "c04:unit_one", "params": {"cfg": public(cfg), "how": how}})
 
     if not t and not mis:
+        hv = "shared-buffer" if cfg.get("shared") else "honest"
+        sig = "" if cfg.get("shared") else ",l=%d,%s" % (cfg["l"], kc)      # the shared-buffer keys name the step only
         if h.err:
-            viol("%s:honest-step-error:%s,%s,l=%d,%s" % (fn, h.err[0], errname(h.err[1]), cfg["l"], kc),
-                 "honest run: %s returned %s" % (h.err[0], errname(h.err[1])))
+            viol("%s:%s-step-error:%s,%s%s" % (fn, hv, h.err[0], errname(h.err[1]), sig),
+                 "%s run: %s returned %s" % (hv, h.err[0], errname(h.err[1])))
         elif h.key["A"] is None or h.key["B"] is None:
             raise Harness("honest run without error but without keys")
         elif h.key["A"] != h.key["B"]:
-            viol("%s:honest-keys-differ:l=%d,%s" % (fn, cfg["l"], kc), "honest run: the two 32-octet keys differ")
+            viol("%s:%s-keys-differ%s" % (fn, hv, (":" + sig[1:]) if sig else ""), "%s run: the two 32-octet keys differ" % hv)
         return keys
     if t and not h.altered:
         # the run stopped before the altered message was produced: only possible if an honest prefix failed
@@ -887,22 +891,66 @@ def enum_tamper(tier, seed):
     return out
 
 
-def enum_info(tier, seed):
-    """y-negated points: informational only (STB 34.101.66 hashes x-coordinates), never a violation"""
+def neg_tallied_only(proto, kcb):
+    """y-negated points (x, p - y).  Where the protocol binds the whole point the statement's verdict applies and the
+    alteration is judged like any other: BMQV (K = s(V - (2^l+t)Q) changes with the sign of V), BSTS (Step4/Step5
+    compare sG + (2^l+t)Q with the full point V), BAUTH with kcb = 1 (Step5 compares with the full Vct).
+    Tallied only, never judged: BPACE M2/M3 and BAUTH with kcb = 0 -- STB 34.101.66 / 34.101.79 use only
+    x-coordinates there (K = <u V>_2l, hash over <Va>_2l || <Vb>_2l; BAUTH kcb = 0 uses Vct only through
+    <dt Vct>_2l), so -V gives the same key by the standards' design and the unchanged tree accepts it."""
+    return proto == "BPACE" or (proto == "BAUTH" and not kcb)
+
+
+def enum_neg(tier, seed):
+    """every transmitted point of every message, on all three curves, replaced by its negation"""
     out = []
     n = 0
+    reps = 4 if tier == "quick" else 12
     for l in (128, 192, 256):
         for proto in PROTOS:
             for kca, kcb in KC[proto]:
                 ca, cb = cert_lens(l)
                 for m, segs in sorted(layout(proto, l, kca, kcb, ca, cb).items()):
-                    if point_off(segs) is not None:
+                    if point_off(segs) is None:
+                        continue
+                    for rep in range(reps):
                         n += 1
-                        c = base_cfg(proto, l, kca, kcb, n)
-                        c["tamper"] = ["sub", m, "neg"]
-                        c["info"] = True
+                        c = base_cfg(proto, l, kca, kcb, 3 * n + rep)
+                        c["tamper"] = ["sub", m, "negated-point"]
+                        if neg_tallied_only(proto, kcb):
+                            c["info"] = True
                         out.append(c)
     return out
+
+
+def enum_shared(tier, seed):
+    """honest runs in which every step that has an input and an output message gets ONE heap block
+    (max(in_len, out_len) octets) as both `in` and `out` -- the way test/crypto/btok_test.c calls the BAUTH steps;
+    bake.h / btok.h do not forbid it"""
+    out = []
+    n = 0
+    reps = 4 if tier == "quick" else 16
+    for l in (128, 192, 256):
+        for proto in PROTOS:
+            for kca, kcb in KC[proto]:
+                for rep in range(reps):
+                    n += 1
+                    c = base_cfg(proto, l, kca, kcb, 5 * n + rep, ks=rep % 3)
+                    c["ts"] = "%s/shared/%d" % (seed, n)
+                    c["shared"] = [x for x in SHARED_STEPS[proto] if (proto, x) not in SHARED_UNJUDGED] \
+                        if SHARED_UNJUDGED else "all"
+                    c["pwd"] = [b"8086", b"", bytes(range(64)), b"pw"][rep % 4].hex()
+                    out.append(c)
+    return out
+
+
+# steps with an input and an output message
+SHARED_STEPS = {"BMQV": ["A.Step3", "B.Step4"], "BSTS": ["A.Step3", "B.Step4"], "BPACE": ["A.Step3", "B.Step4", "A.Step5"],
+                "BAUTH": ["A.Step3", "B.Step4"]}
+# (protocol, step) pairs that fail with out == in on the UNCHANGED library would be listed here (tallied, not
+# judged).  Probed on the tree of 2026-09-26 (after the BAUTH Rt fix): every step of every protocol, on the three
+# curves and all flag combinations, passes with a shared block and produces the same transcript -- nothing is exempt.
+SHARED_UNJUDGED = set()
 
 
 # mismatches for which an error code is promised whatever the confirmation flags are: a certval callback that
@@ -983,7 +1031,8 @@ def enum_run(tier, seed):
     return out
 
 
-ENUM = {"honest": enum_honest, "tamper": lambda t, s: enum_tamper(t, s) + enum_info(t, s), "mismatch": enum_mismatch,
+ENUM = {"honest": lambda t, s: enum_honest(t, s) + enum_shared(t, s),
+        "tamper": lambda t, s: enum_tamper(t, s) + enum_neg(t, s), "mismatch": enum_mismatch,
         "run": enum_run}
 
 
@@ -1073,6 +1122,20 @@ def run_case(ctx, env, cfg, how, donors):
         else:
             keys = judge(ctx, cfg, h)
         finish_case(env.lib)
+        if cfg.get("shared") and cfg.get("tape", "py") != "ctr":
+            # same tapes with separate buffers: the transcript must be the same octet for octet
+            cfg2 = {k: v for k, v in cfg.items() if k not in ("_layout", "shared")}
+            prep(cfg2)
+            h2 = run_steps(env, cfg2, donor)
+            finish_case(env.lib)
+            if (h.steps, h.sent, h.key) != (h2.steps, h2.sent, h2.key):
+                first = next((m for m in sorted(h2.sent) if h.sent.get(m) != h2.sent[m]), None)
+                key = "%s:shared-buffer-differs:%s" % (FN[cfg["proto"]], first or "steps-or-key")
+                keys.append(key)
+                ctx.violation(key, "the same honest run gives another transcript when a step's in and out are one block",
+                              {"cfg": public(cfg), "shared": {"steps": [(s, errname(c)) for s, c in h.steps], "sent": h.sent, "key": h.key},
+                               "separate": {"steps": [(s, errname(c)) for s, c in h2.steps], "sent": h2.sent, "key": h2.key}},
+                              replay={"unit": "c04:unit_one", "params": {"cfg": public(cfg), "how": how}})
         return keys
     # RunA / RunB, then the same tapes step by step
     h, ca, cb = run_pipe(env, cfg, donor)
@@ -1116,6 +1179,8 @@ def labels(cfg, how):
     else:
         out.append("hello:%s/%s" % tuple(("null", "empty", "1", "64")[cfg[k]] for k in ("ha", "hb")))
         out.append("tape:" + cfg.get("tape", "py"))
+        if cfg.get("shared"):
+            out.append("shared-buffer:%s" % p)
         if cfg.get("cpad"):
             out.append("run:multi-block-cert")
     return out
@@ -1133,6 +1198,8 @@ def main_class(cfg, how):
         return "%s%s:%s" % (pre, k, p)
     if cfg.get("mis"):
         return "mismatch:%s:%s" % (p, cfg["mis"].split(":")[0].split("-")[0])
+    if cfg.get("shared"):
+        return "honest:shared-buffer"
     return "%shonest:%s" % (pre, p)
 
 
@@ -1194,7 +1261,9 @@ REQUIRED = tuple("%s:%s" % (k, p) for p in PROTOS for k in ("honest", "flip", "z
                                                               "zero-point", "twist")) + \
     tuple("run-honest:%s" % p for p in ("BMQV", "BSTS", "BPACE")) + \
     tuple("run-flip:%s" % p for p in ("BMQV", "BSTS", "BPACE")) + \
-    ("mismatch:BPACE:pwd", "mismatch:BMQV:priv", "mismatch:BSTS:cvreject", "mismatch:BAUTH:certkey",
+    ("honest:shared-buffer", "shared-buffer:BMQV", "shared-buffer:BSTS", "shared-buffer:BPACE", "shared-buffer:BAUTH",
+     "negated-point:BMQV", "negated-point:BSTS", "negated-point:BAUTH", "info-negated:BPACE", "info-negated:BAUTH",
+     "mismatch:BPACE:pwd", "mismatch:BMQV:priv", "mismatch:BSTS:cvreject", "mismatch:BAUTH:certkey",
      "mismatch:BMQV:othercurve", "mismatch:BSTS:hellob", "tape:ctr", "tape:u1", "tape:uq1", "tape:rej", "tape:z",
      "hello:null/null", "hello:64/64", "hello:empty/1", "run:multi-block-cert")
 
@@ -1218,8 +1287,11 @@ def main(run):
             "confirmation (kca=kcb=0) differing keys are required instead",
             "additionally, a delivered message whose point encoding is not a point of the curve (off-curve, coordinate >= p, "
             "zero, twist) must be refused by the very step that receives it: STB 34.101.66 places the test V in E* there",
-            "y-negated points (x unchanged) are outside the quantifier: STB 34.101.66 hashes and uses x-coordinates only "
-            "in BPACE; they are run and tallied in info_negated_point but never judged",
+            "y-negated points (x, p-y) are judged by the statement's verdict wherever the protocol binds the whole point "
+            "(BMQV, BSTS, BAUTH with kcb=1); in BPACE (M2, M3) and BAUTH with kcb=0 the standards use x-coordinates only, "
+            "-V yields the same key by design: those are run and tallied in info_negated_point, never judged",
+            "honest:shared-buffer: a step's input and output message may be one block (bake.h does not forbid it, "
+            "btok_test.c calls the BAUTH steps so); every step passes this on the unchanged tree, so all are judged",
             "BAUTH with kcb=0 does not authenticate the token, so a token key/certificate mismatch is only tested with kcb=1",
             "the pipe delivers whole messages (bake_test.c file semantics); message lengths that are multiples of the "
             "512-octet read block of bakeBSTSRunA/B are not generated",
